@@ -456,3 +456,40 @@ func Diff(want, got Obs) []Mismatch {
 	}
 	return out
 }
+
+// ParseCanon parses the canonical rendering produced by Elem.String for
+// elements whose ids and labels contain no ':' '(' ')' or spaces (true for
+// the history alphabets).
+func ParseCanon(c string) (Elem, bool) {
+	if len(c) < 4 || c[len(c)-1] != ')' {
+		return Elem{}, false
+	}
+	body := c[2 : len(c)-1]
+	if c[0] == 'V' {
+		p := strings.SplitN(body, ":", 3)
+		if len(p) != 3 {
+			return Elem{}, false
+		}
+		return Elem{ID: p[0], Label: p[1], Data: parseData(p[2])}, true
+	}
+	p := strings.SplitN(body, ":", 4)
+	if len(p) != 4 {
+		return Elem{}, false
+	}
+	ft := strings.SplitN(p[1], "->", 2)
+	if len(ft) != 2 {
+		return Elem{}, false
+	}
+	return Elem{Edge: true, ID: p[0], From: ft[0], To: ft[1], Label: p[2], Data: parseData(p[3])}, true
+}
+
+func parseData(s string) map[string]any {
+	if s == "{}" || s == "" {
+		return nil
+	}
+	var m map[string]any
+	if json.Unmarshal([]byte(s), &m) != nil || len(m) == 0 {
+		return nil
+	}
+	return m
+}
